@@ -125,6 +125,88 @@ def pInfer (kb : FKB ι α) (nodes : List ι) (up down : List (FCall ι)) (eps :
       let t := pInfer kb nodes up down eps fuel d.1
       ⟨t.state, t.steps + 1, diff + t.total, t.converged⟩
 
+/-! ### node-level calls restricted to given groundings (`upward(groundings=…)`, `downward(groundings=…)`)
+
+Only a connective whose operands all carry the operator's variable tuple (the join-free branch
+`_fol_bounds`) honours the restriction: the given groundings replace the union of the operands'
+(and, downward, the operator's) groundings; they are created in the operands and in the operator
+and only they are evaluated. Every other formula ignores the argument. -/
+
+def groundingsR (kb : FKB ι α) (i : ι) (down : Bool) (restrict : Option (List Gr)) (s : FState ι α) :
+    FState ι α × Option (List Gr × List (List Gr)) :=
+  match restrict with
+  | none => groundings kb i down s
+  | some gs0 =>
+    let n := kb i
+    if isHomogeneous n then
+      let gs := dedupKeepFirst gs0
+      let s1 := addAll kb s (n.ops.map fun j => (j, gs))
+      let s2 := addAll kb s1 [(i, gs)]
+      (s2, some (gs, n.ops.map fun _ => gs))
+    else groundings kb i down s
+
+/-- `fUpConn` over the restricted grounding management -/
+def fUpConnR (kb : FKB ι α) (i : ι) (restrict : Option (List Gr)) (s : FState ι α) : FState ι α × α :=
+  let n := kb i
+  match groundingsR kb i false restrict s with
+  | (s1, none) => (s1, 0)
+  | (s1, some (ogs, per)) =>
+    let items := (List.range ogs.length).filterMap fun k =>
+      let bs := List.zipWith (fun j g => Table.getD (kb j).world (s1.get j) g) n.ops (rowsOf per k)
+      if (bs.take 2).any (isContra n.alpha) then none else some (ogs.getD k [], fActUp n bs)
+    let r := items.foldl (fun (acc : Table α × α) it =>
+      let a := aggRow acc.1 it.1 .both it.2
+      (a.1, acc.2 + a.2)) (s1.get i, 0)
+    (s1.set i r.1, r.2)
+
+/-- `fDownConn` over the restricted grounding management -/
+def fDownConnR (kb : FKB ι α) (i : ι) (idx : Option Nat) (restrict : Option (List Gr)) (s : FState ι α) :
+    FState ι α × α :=
+  let n := kb i
+  match groundingsR kb i true restrict s with
+  | (s1, none) => (s1, 0)
+  | (s1, some (ogs, per)) =>
+    let items := (List.range ogs.length).filterMap fun k =>
+      let gsk := rowsOf per k
+      let bs := List.zipWith (fun j g => Table.getD (kb j).world (s1.get j) g) n.ops gsk
+      let ob := Table.getD n.world (s1.get i) (ogs.getD k [])
+      if (bs.take 2).any (isContra n.alpha) || isContra n.alpha ob then none
+      else some (gsk, fActDown n ob bs)
+    if items.isEmpty then (s1, 0) else
+      (List.zip (List.range n.ops.length) n.ops).foldl (fun (acc : FState ι α × α) p =>
+        if idx = none ∨ idx = some p.1 then
+          let props := items.filterMap fun it =>
+            match it.1[p.1]?, it.2[p.1]? with
+            | some g, some b => some (g, b)
+            | _, _ => none
+          let w := writeMerged (acc.1.get p.2) props
+          (acc.1.set p.2 w.1, acc.2 + w.2)
+        else acc) (s1, 0)
+
+theorem groundingsR_none (kb : FKB ι α) (i : ι) (down : Bool) (s : FState ι α) :
+    groundingsR kb i down none s = groundings kb i down s := rfl
+
+/-- without a restriction the restricted calls are the plain ones -/
+theorem fUpConnR_none (kb : FKB ι α) (i : ι) (s : FState ι α) : fUpConnR kb i none s = fUpConn kb i s := rfl
+
+theorem fDownConnR_none (kb : FKB ι α) (i : ι) (idx : Option Nat) (s : FState ι α) :
+    fDownConnR kb i idx none s = fDownConn kb i idx s := rfl
+
+def isConn (n : FNode ι α) : Bool := n.kind = .and || n.kind = .or || n.kind = .implies
+
+def pUpR (kb : FKB ι α) (i : ι) (restrict : Option (List Gr)) (p : PState ι α) : PState ι α × α :=
+  if isConn (kb i) then
+    let r := fUpConnR kb i restrict p.st
+    (⟨r.1, notePend kb i p.st r.1 p.pend⟩, r.2)
+  else pUp kb i p
+
+def pDownR (kb : FKB ι α) (i : ι) (idx : Option Nat) (restrict : Option (List Gr)) (p : PState ι α) :
+    PState ι α × α :=
+  if isConn (kb i) then
+    let r := fDownConnR kb i idx restrict p.st
+    (⟨r.1, notePend kb i p.st r.1 p.pend⟩, r.2)
+  else pDown kb i idx p
+
 /-- the early exit of `_infer` for a query without variables (`is_classically_resolved` is only
 ever true of a proposition-like formula): its single grounding is TRUE, FALSE or CONTRADICTION -/
 def fQueryStop (kb : FKB ι α) (query : Option ι) (s : FState ι α) : Bool :=
